@@ -52,7 +52,22 @@ type machine struct {
 	baseDesc any
 	baseDefs []any
 	probes   []val.V
-	last     any // last successful Unserialize result (a native value)
+	initial  []probeOutcome // what each probe gave on this very instance before the history started
+	last     any            // last successful Unserialize result (a native value)
+}
+
+type probeOutcome struct {
+	res      any
+	err      bool
+	panicked bool
+}
+
+func probe(sch schema.Type, p val.V) probeOutcome {
+	var o probeOutcome
+	var err error
+	o.panicked = oracle.Safely(func() { o.res, err = sch.Unserialize(p.Go()) }) != nil
+	o.err = err != nil
+	return o
 }
 
 func objectsOf(t schema.Type) []*schema.ObjectSchema {
@@ -159,6 +174,9 @@ func newMachine(s *spec.Spec, probes []val.V) (*machine, error) {
 	m := &machine{s: s, sch: sch, probes: probes}
 	m.baseDesc = describe(sch)
 	m.baseDefs = defaultsOf(sch)
+	for _, p := range probes {
+		m.initial = append(m.initial, probe(sch, p))
+	}
 	return m, nil
 }
 
@@ -332,7 +350,13 @@ func (m *machine) invariant() string {
 	if err != nil {
 		return ""
 	}
-	for _, p := range m.probes {
+	for i, p := range m.probes {
+		// (schema, argument) -> result must be a function: the probe must still give what it gave on this instance
+		// before the history (this also sees state that outlives the instance, e.g. in package-level unit definitions,
+		// which a comparison with a fresh instance cannot see)
+		if now, was := probe(m.sch, p), m.initial[i]; now.panicked != was.panicked || now.err != was.err || (!now.err && !now.panicked && !val.Equal(now.res, was.res, val.Opts{})) {
+			return fmt.Sprintf("Unserialize(%s) changed its answer in the course of this history:\n before: (%#v, err=%v, panic=%v)\n now:    (%#v, err=%v, panic=%v)", p, was.res, was.err, was.panicked, now.res, now.err, now.panicked)
+		}
 		var r1, r2 any
 		var e1, e2 error
 		p1 := oracle.Safely(func() { r1, e1 = m.sch.Unserialize(p.Go()) })
@@ -342,6 +366,57 @@ func (m *machine) invariant() string {
 		}
 	}
 	return ""
+}
+
+// neighbours derives probes from an argument: the same value with one string leaf slightly altered (a blank inserted
+// in the middle, the case of its letters flipped, surrounding blanks). A string-keyed cache or memo that identifies
+// "similar" strings answers such a probe differently before and after the original has been seen.
+func neighbours(arg val.V, max int) []val.V {
+	var out []val.V
+	var walk func(v val.V, rebuild func(val.V) val.V)
+	walk = func(v val.V, rebuild func(val.V) val.V) {
+		if len(out) >= max {
+			return
+		}
+		if v.T == "string" && len(v.S) >= 2 {
+			mid := len(v.S) / 2
+			flipped := []byte(v.S)
+			for i, c := range flipped {
+				switch {
+				case c >= 'a' && c <= 'z':
+					flipped[i] = c - 32
+				case c >= 'A' && c <= 'Z':
+					flipped[i] = c + 32
+				}
+			}
+			for _, alt := range []string{v.S[:mid] + " " + v.S[mid:], v.S[:1] + " " + v.S[1:], v.S[:len(v.S)-1] + " " + v.S[len(v.S)-1:], string(flipped), " " + v.S + "\t"} {
+				if alt != v.S && len(out) < max {
+					out = append(out, rebuild(val.Str(alt)))
+				}
+			}
+			return
+		}
+		for i := range v.L {
+			i := i
+			walk(v.L[i], func(n val.V) val.V {
+				c := v
+				c.L = append([]val.V(nil), v.L...)
+				c.L[i] = n
+				return rebuild(c)
+			})
+		}
+		for i := range v.M {
+			i := i
+			walk(v.M[i].V, func(n val.V) val.V {
+				c := v
+				c.M = append([]val.KV(nil), v.M...)
+				c.M[i].V = n
+				return rebuild(c)
+			})
+		}
+	}
+	walk(arg, func(n val.V) val.V { return n })
+	return out
 }
 
 func replay(h History) string {
@@ -494,10 +569,6 @@ func TestPurity(t *testing.T) {
 			}
 		}
 		h.Probes = append(h.Probes, val.V{T: "map[string]any"}, gen.Hostile(1).Draw(rt, "probeHostile"))
-		m, err := newMachine(s, h.Probes)
-		if err != nil {
-			rt.Skip("build")
-		}
 		sawErr, sawDefaultFill, bigMap := false, false, false
 		recursive := false
 		spec.Walk(s, func(n *spec.Spec) {
@@ -538,9 +609,6 @@ func TestPurity(t *testing.T) {
 			case "validate_spoiled", "serialize_spoiled":
 				st.Op = op
 				st.K = rapid.IntRange(0, 63).Draw(rt, "spoilLeaf")
-				if m.last != nil {
-					ev.Class("spoiled_call", 1)
-				}
 			case "validate_raw", "serialize_raw":
 				st.Op = op
 				st.Arg = gen.Native(2).Draw(rt, "nativeArg")
@@ -561,6 +629,30 @@ func TestPurity(t *testing.T) {
 			h.Steps = append(h.Steps, st)
 			if hasBigMap(st.Arg) {
 				bigMap = true
+			}
+		}
+		// probes derived from the history's own arguments (neighbouring strings), fixed before anything is executed
+		nb := 0
+		for _, st := range h.Steps {
+			if st.Op == "unserialize" || st.Op == "compat_data" {
+				for _, n := range neighbours(st.Arg, 5) {
+					if nb < 10 {
+						h.Probes = append(h.Probes, n)
+						nb++
+					}
+				}
+			}
+		}
+		if nb > 0 {
+			ev.Class("history_with_neighbour_probes", 1)
+		}
+		m, err := newMachine(s, h.Probes)
+		if err != nil {
+			rt.Skip("build")
+		}
+		for i, st := range h.Steps {
+			if (st.Op == "validate_spoiled" || st.Op == "serialize_spoiled") && m.last != nil {
+				ev.Class("spoiled_call", 1)
 			}
 			msg := m.step(st)
 			if st.Op == "unserialize" && m.last == nil {
